@@ -186,6 +186,8 @@ func (cliSim) Gen(prop, tier string, r *rand.Rand) interface{} {
 	}
 	if prop == "C09" && chance(r, 0.25) {
 		c.Cmd.SrcRemote = true
+	} else if prop == "C09" && chance(r, 0.15) {
+		c.Cmd.DstRemote = true // the destination side is read through the server
 	}
 	if prop == "C20" && c.Cmd.Fill && c.EnvFault == "" && chance(r, 0.3) {
 		// F3: the clock ticks while generate is running
@@ -499,7 +501,12 @@ func (cliSim) Run(e *Env, ci interface{}) {
 	oldLocal := time.Local
 	time.Local = time.FixedZone("SIM", int(c.SchedSeed%27-12)*1800)
 	defer func() { time.Local = oldLocal }()
+	serveBase = "src"
+	if c.Cmd.DstRemote && !c.Cmd.SrcRemote {
+		serveBase = "dst"
+	}
 	r := newCliRunner(e, c.SchedSeed, 0, c.Cmd.SrcRemote || c.Cmd.DstRemote)
+	serveBase = "src"
 	defer r.close()
 	if c.Tick != nil {
 		fired := false
